@@ -57,6 +57,9 @@ def analyse(rep, prog, oks):
         ar = tracker.run_action(prog, p)
         me = p.df.fields[0].fields[2] if p.variant == "ADSB" else p.df.fields[0].fields[2]
         new_atoms = decode.deps_of(me.fields[0]) | frozenset(range(32, 88))
+        if not any(e["kind"] == "get_position_call" for o in ar.outs for e in o.events):
+            # (a record with both slots filled exists among the explored pre-states, so some path must reach the pairing)
+            rep.violation("R1", "pairing:report-ignored:%s" % "/".join(label.split("/")[:2]), "%s: a position report of this kind never reaches the pairing: it is not stored, so the published position is not that of the most recent even and odd reports" % label)
         for o in ar.outs:
             gps = [e for e in o.events if e["kind"] == "get_position_call"]
             rets = [e for e in o.events if e["kind"] == "tagged_return" and e["tag"] == "position_fn"]
